@@ -601,7 +601,7 @@ class C29(Prop):
     # -- generator
     def gen(self, rng, tier):
         self._tier = tier
-        n = {'quick': 70, 'thorough': 700, 'search': 400}.get(tier, 70)
+        n = {'quick': 45, 'thorough': 600, 'search': 300}.get(tier, 45)
         for k in range(n):
             seed = rng.randrange(1 << 30)
             r = random.Random(seed)
@@ -693,7 +693,7 @@ class C29(Prop):
             return False
         if self._tier == 'thorough':
             return True
-        return zlib.crc32(dumps(req).encode()) % 10 == 0
+        return zlib.crc32(dumps(req).encode()) % 16 == 0
 
 
 PROP = C29()
